@@ -123,6 +123,12 @@ type RaftNode struct {
 	sync.Mutex
 	closed bool
 	done   chan struct{}
+
+	// fsmMu makes an insertion (or a state transfer) atomic for readers: the
+	// balloon computes an insertion in memory first and the store is written
+	// afterwards, and a query or backup in between saw the new version without
+	// its data.
+	fsmMu sync.RWMutex
 }
 
 func NewRaftNode(opts *ClusteringOptions, store storage.ManagedStore, snapshotsCh chan *protocol.Snapshot, tlsConfigurator *tlsutil.TLSConfigurator) (*RaftNode, error) {
